@@ -25,9 +25,9 @@ PROPS = {
     "C11": P(shard_timeout={"quick": 900, "thorough": 3000}, max_restarts=400),
     "C10": P(shard_timeout={"quick": 1200, "thorough": 3000}),
     "C16": P(shards={"quick": 8, "thorough": 16}, level="fault_enumeration", extra_bin="./cmd/dastard"),
-    "C05": P(asan=True),
-    "C06": P(),
-    "C20": P(),
+    "C05": P(asan=True, gomaxprocs=[1, 2, 4, 4]),
+    "C06": P(gomaxprocs=[1, 2, 4, 4]),
+    "C20": P(gomaxprocs=[1, 2, 4, 4]),
     "C07": P(level="fault_enumeration"),
     "C08": P(gomaxprocs=[1, 2, 4, 4]),
     "C09": P(gomaxprocs=[1, 2, 4, 4]),
